@@ -18,6 +18,39 @@ using namespace kit;
 
 namespace
 {
+#define IDIOM(name) cxx_##name
+#define IDIOM_LINKAGE static
+#include "C01_idioms.inc"
+    // what a walk over `order` visits: nothing when the walk is the if-branch of a false condition; otherwise every id except
+    // `skip`, up to and including `stop`
+    std::vector<int> expect_walk(const std::vector<int> &order, int cond, int stop, int skip)
+    {
+        std::vector<int> e;
+        if (!cond) return e;
+        for (int id : order)
+        {
+            if (id == skip) continue;
+            e.push_back(id);
+            if (id == stop) break;
+        }
+        return e;
+    }
+    template <class H, class F> void check_walk(const char *what, F fn, H *h, const std::vector<int> &order, int cond, int stop, int skip, const char *when)
+    {
+        std::vector<int> out(order.size() + 4, -9);
+        int else_ran = -1;
+        int n = fn(h, cond, stop, skip, out.data(), (int)order.size() + 2, &else_ran);
+        out.resize((size_t)std::max(n, 0));
+        std::vector<int> want = expect_walk(order, cond, stop, skip);
+        if (else_ran != !cond) violate("C01/loop-macro-statement", "%s: %s as the if-branch of 'if (%d) ... else ...': the else branch %s", when, what, cond, else_ran ? "ran" : "did not run");
+        if (out != want)
+        {
+            std::string a = "[", b = "[";
+            for (int x : out) a += std::to_string(x) + ",";
+            for (int x : want) b += std::to_string(x) + ",";
+            violate("C01/loop-macro-statement", "%s: %s with break at id %d and continue at id %d visits %s], expected %s]", when, what, stop, skip, a.c_str(), b.c_str());
+        }
+    }
     enum St { UNLINKED, LINKED, POISONED, ORPHAN, STALE };
     // STALE: a C node that is in no list but whose links hold anything - never initialised (simulated memory fill), or left
     // behind when its list head was re-initialised wholesale. The header's contract: dlist_init "should be used before all
@@ -105,6 +138,7 @@ namespace
                     if (heads[l].get() == n) return -100 - l;
                 return -1;
             };
+            uint64_t idiom_tick = 0;
             auto check = [&](const char *when) {
                 int nonempty = 0;
                 for (int l = 0; l < nl; l++)
@@ -130,6 +164,31 @@ namespace
                     CItem *pos;
                     dlist_for_each_entry(pos, h, lnk) ent.push_back(pos->id);
                     if (ent != m[l]) violate("C01/c-dlist-entry", "%s: dlist_for_each_entry yields %s, reference %s", when, seq(ent).c_str(), seq(m[l]).c_str());
+                    {
+                        // the loop macros as statements: under if / else without braces, left with break, entries skipped with continue
+                        idiom_tick++;
+                        int cond = (int)(idiom_tick % 3 != 0);
+                        int stop = m[l].empty() || idiom_tick % 4 == 0 ? -1 : m[l][(size_t)(idiom_tick / 4) % m[l].size()];
+                        int skip = m[l].empty() || idiom_tick % 5 < 2 ? -1 : m[l][(size_t)(idiom_tick / 5) % m[l].size()];
+                        std::vector<int> rev(m[l].rbegin(), m[l].rend());
+                        if (idiom_tick % 2)
+                        {
+                            check_walk("dlist_for_each_entry", cxx_walk_dl_entry, h, m[l], cond, stop, skip, when);
+                            check_walk("dlist_for_each_entry_reverse", cxx_walk_dl_entry_rev, h, rev, cond, stop, skip, when);
+                            check_walk("dlist_for_each_entry_safe", cxx_walk_dl_entry_safe, h, m[l], cond, stop, skip, when);
+                            check_walk("dlist_for_each", cxx_walk_dl_raw, h, m[l], cond, stop, skip, when);
+                            check_walk("dlist_for_each_safe", cxx_walk_dl_raw_safe, h, m[l], cond, stop, skip, when);
+                        }
+                        else
+                        {
+                            check_walk("dlist_for_each_entry (compiled as C)", c01_c_walk_dl_entry, h, m[l], cond, stop, skip, when);
+                            check_walk("dlist_for_each_entry_reverse (compiled as C)", c01_c_walk_dl_entry_rev, h, rev, cond, stop, skip, when);
+                            check_walk("dlist_for_each_entry_safe (compiled as C)", c01_c_walk_dl_entry_safe, h, m[l], cond, stop, skip, when);
+                            check_walk("dlist_for_each (compiled as C)", c01_c_walk_dl_raw, h, m[l], cond, stop, skip, when);
+                            check_walk("dlist_for_each_safe (compiled as C)", c01_c_walk_dl_raw_safe, h, m[l], cond, stop, skip, when);
+                        }
+                        if (stop >= 0 || skip >= 0) probe("loop_macro_left_with_break_or_continue");
+                    }
                     {
                         // the same traversals and queries as expanded by the C compiler (C01_c_api.c)
                         std::vector<int> ce((size_t)ni + 4), cr((size_t)ni + 4);
@@ -296,7 +355,21 @@ namespace
                 case C_DEL_INIT:
                     if (st[i] == POISONED || st[i] == STALE) { done = false; break; }
                     if (st[i] == UNLINKED) probe("second_removal");
-                    dlist_del_init(n);
+                    if (st[i] == LINKED && mod(arg(o, 3), 3) != 0)
+                    {
+                        // the remove-first idiom: a _safe walk over the entry's list that unlinks the first entry of i's parity and
+                        // leaves with break - later entries of the same parity stay
+                        int L = where[i], j = -1, same = 0;
+                        for (int id : m[L])
+                            if ((id & 1) == (i & 1)) { if (j < 0) j = id; same++; }
+                        int removed = mod(arg(o, 3), 3) == 1 ? cxx_remove_first_dl(heads[L].get(), i & 1) : c01_c_remove_first_dl(heads[L].get(), i & 1);
+                        if (removed != j) violate("C01/loop-macro-statement", "the remove-first idiom over dlist_for_each_entry_safe (unlink the first match, break) returned %d on a list with %d matching entries, the first of them is %d", removed, same, j);
+                        if (same >= 2) probe("remove_first_idiom_with_several_matches");
+                        unlink_model(j);
+                        st[j] = UNLINKED;
+                        break;
+                    }
+                    else dlist_del_init(n);
                     unlink_model(i);
                     st[i] = UNLINKED;
                     break;
@@ -913,6 +986,7 @@ namespace
             int pops = 0, dels = 0;
             auto sid = [&](slist_head *n) { for (int i = 0; i < ni; i++) if (&it[i]->sl == n) return i; return -1; };
             auto hid = [&](hlist_node *n) { for (int i = 0; i < ni; i++) if (&it[i]->hn == n) return i; return -1; };
+            uint64_t sh_tick = 0;
             auto check = [&](const char *when) {
                 for (int l = 0; l < nl; l++)
                 {
@@ -931,6 +1005,18 @@ namespace
                     std::vector<int> e;
                     slist_for_each_entry(pos, sh[l].get(), sl) e.push_back(pos->id);
                     if (e != ms[l]) violate("C01/slist-entry", "%s: slist_for_each_entry yields %s, reference %s", when, seq(e).c_str(), seq(ms[l]).c_str());
+                    {
+                        // the entry loops as statements (if / else without braces, break, continue), in both languages
+                        sh_tick++;
+                        int cond = (int)(sh_tick % 3 != 0);
+                        auto pick = [&](const std::vector<int> &v, uint64_t d, bool none) { return v.empty() || none ? -1 : v[(size_t)(sh_tick / d) % v.size()]; };
+                        int stop = pick(ms[l], 4, sh_tick % 4 == 0), skip = pick(ms[l], 5, sh_tick % 5 < 2);
+                        if (sh_tick % 2) check_walk("slist_for_each_entry", cxx_walk_sl_entry, sh[l].get(), ms[l], cond, stop, skip, when);
+                        else check_walk("slist_for_each_entry (compiled as C)", c01_c_walk_sl_entry, sh[l].get(), ms[l], cond, stop, skip, when);
+                        stop = pick(mh[l], 4, sh_tick % 4 == 1), skip = pick(mh[l], 5, sh_tick % 5 >= 3);
+                        if (sh_tick % 2) check_walk("hlist_for_each_entry (compiled as C)", c01_c_walk_hl_entry, hh[l].get(), mh[l], cond, stop, skip, when);
+                        else check_walk("hlist_for_each_entry", cxx_walk_hl_entry, hh[l].get(), mh[l], cond, stop, skip, when);
+                    }
                     {
                         std::vector<int> ce((size_t)ni + 4);
                         int n1 = c01_c_slist_entries(sh[l].get(), ce.data(), ni + 2);
